@@ -132,48 +132,62 @@ Proof. exact sync_fork_partial. Qed.
 Print Assumptions C11_sync_fork_partial.
 
 (* The FULL statement as it was written down first (Proofs/Sync.v, [sync_fork_full] : Prop - whenever the node shares
-   an ancestor with a peer holding a valid heavier chain, the request rounds bring the peer's tip) is FALSE for the
-   synchronisation logic as implemented: Proofs/Sync2Stuck.v exhibits a pair of chains of the verification network on
-   which the fair schedule never stores another block. *)
+   an ancestor with a peer holding a valid heavier chain, the request rounds bring the peer's tip, WHATEVER target the
+   node has heard of before) is FALSE: a node whose target was pinned by an announcement nobody delivers never asks an
+   honest peer with a heavier chain of the same height for anything (livelock 2 below). *)
 Theorem C11_sync_fork_full_refuted : ~ sync_fork_full cfg_verifnet 7 0.
 Proof. exact sync_fork_full_refuted. Qed.
 Print Assumptions C11_sync_fork_full_refuted.
 
-(* LIVELOCK 1 (two nodes, every request answered, nobody lies).  Our chain: genesis + 14 blocks with equal timestamps
-   (tip 1014, height 14, cumulative difficulty 145); peer: genesis + 75 blocks 15 s apart (tip 2075, height 75,
-   cumulative difficulty 155; 135 at height 65 = 14 + PARALLEL_BLOCKS_DOWNLOAD + 1).  In EVERY round of the schedule
-   "peer's STATS arrived - one Synchronize iteration - every request answered - buffer drained": our tip stays 1014 and
-   the peer's block of height 66 (hash 2066) is never stored.  From round 200 on the state repeats with period 22
-   ([k_period]); the request (height 15, count 50) is answered with 51 duplicates every 22 iterations.
-   Cause: the by-height request always restarts at OUR main-chain height (which an alternative chain does not move), so a
-   peer branch that becomes heavier than our chain only more than 51 blocks above our height is never fetched. *)
-Theorem C11_stuck_long_light_fork : forall j,
-  let s := srounds cfg_verifnet 7 0 k_P k_now j (sync0 k_B) in
-  top (sy_node s) = 1014 /\ top (sy_node s) <> top k_P /\ get_block (sy_node s) 2066 = None.
-Proof. exact stuck_long_light_fork. Qed.
-Print Assumptions C11_stuck_long_light_fork.
-
-(* LIVELOCK 2 (one false or outdated STATS packet).  Node: genesis + 5 blocks (tip 3005, cumulative difficulty 15); honest
-   peer: a fork from genesis of the same height 5, heavier (tip 4005, cumulative difficulty 17) - adopted within 5 rounds
-   from the fresh state ([k_control2]).  After a STATS packet (height 100, cumulative difficulty 1000) from a peer that
-   delivers nothing, in EVERY round: the tip stays 3005, no block is stored, the target stays (100, 1000). *)
+(* LIVELOCK 2 (one false or outdated STATS packet from a peer that stays connected and never delivers; the variant in
+   which that peer has left is repaired in the implementation, KNOWN_FINDINGS C11-stale-target-peer-gone).  Node: genesis + 5 blocks (tip 3005, cumulative difficulty 15);
+   honest peer: a fork from genesis of the same height 5, heavier (tip 4005, cumulative difficulty 17) - adopted within 5
+   rounds from the fresh state ([k_control2]).  After a STATS packet (height 100, cumulative difficulty 1000) from a peer
+   that delivers nothing, in EVERY round of the schedule "peer's STATS arrived - one Synchronize iteration - every request
+   answered - buffer drained": the tip stays 3005, no block is stored, the target stays (100, 1000). *)
 Theorem C11_stuck_stale_target : forall j,
   let s := srounds cfg_verifnet 7 0 k_P2 k_now j k_stale in
   top (sy_node s) = 3005 /\ length (blocks (sy_node s)) = 6%nat /\ sy_height s = 100 /\ sy_diff s = 1000.
 Proof. exact stuck_stale_target. Qed.
 Print Assumptions C11_stuck_stale_target.
 
+(* LIVELOCK 1 (two nodes, every request answered, nobody lies; REPAIRED - KNOWN_FINDINGS C11-long-light-fork, history
+   in the header of Proofs/Sync2Stuck.v): the by-height request restarted at OUR main-chain height whenever the requested
+   blocks had not moved it, so a peer branch that becomes heavier than our chain only more than
+   PARALLEL_BLOCKS_DOWNLOAD + 1 blocks above our height was never fetched beyond that window.  The pair of chains that
+   showed it - ours: genesis + 14 blocks with equal timestamps (tip 1014, cumulative difficulty 145); peer: genesis + 75
+   blocks 15 s apart (tip 2075, cumulative difficulty 155, still 135 at height 65) - is now a regression example: the node
+   catches up ([sim] within the 600 rounds Check/C11.v allows). *)
+Theorem C11_fork_example_long_light_fork :
+  (top (k_feed k_ours), top_h (k_feed k_ours), top_cd (k_feed k_ours)) = (1014, 14, 145) /\
+  (top (k_feed k_theirs), top_h (k_feed k_theirs), top_cd (k_feed k_theirs)) = (2075, 75, 155) /\
+  map b_cd (firstn 1 (skipn 64 k_theirs)) = [135] /\
+  exists bound, forall k, (bound <= k)%nat ->
+    let s' := srounds cfg_verifnet 7 0 (k_feed k_theirs) k_now k (sync0 (k_feed k_ours)) in
+    sy_node s' = apply_ext cfg_verifnet 7 (k_feed k_ours) k_theirs /\
+    (forall b, In b (k_genesis :: k_theirs) -> get_block (sy_node s') (b_hash b) = Some b) /\
+    top (sy_node s') = top (k_feed k_theirs).
+Proof. exact example_long_light_fork. Qed.
+Print Assumptions C11_fork_example_long_light_fork.
+
+Theorem C11_fork_example_long_light_fork_sim :
+  top (sy_node (fst (sim cfg_verifnet 7 0 600 (k_feed k_theirs) (sync0 (k_feed k_ours)) [] k_now))) = 2075.
+Proof. exact example_long_light_fork_sim. Qed.
+Print Assumptions C11_fork_example_long_light_fork_sim.
+
 (* ---- across a fork: what IS true ---- *)
 (* The mechanism as a machine over heights (Proofs/Sync2.v): frontier L = lowest height of the peer's chain that is not
    stored, the queue as the list of the heights of its entries, one round = one Synchronize iteration with all answers
-   processed lowest first.  If the by-height window always reaches the frontier ([th L] = our own height when the
-   frontier is L), the frontier passes the peer's height after finitely many rounds.
+   processed lowest first; [th L] = our own height, [hd L] = the highest height at which we hold a block, when the
+   frontier is L.  If the block just below the frontier is held (L <= hd L + 1), the frontier passes the peer's height
+   after finitely many rounds.
    Termination measure (lexicographic): blocks of the peer's chain not yet stored; then, while no queue entry is at or
-   above the frontier, the iterations until the by-height part fires again (<= 42); otherwise (lowest such entry - L)
-   + number of entries below the frontier. *)
-Theorem C11_sync_machine_catches_up : forall hp pbd (th : N -> N), 1 <= pbd -> forall L0, 1 <= L0 ->
-  (forall L, L0 <= L -> L <= hp -> th L < hp -> L <= th L + pbd + 1) ->
-  forall a, AInv hp L0 a -> exists k, AInv hp L0 (a_iter hp pbd th k a) /\ hp < aL (a_iter hp pbd th k a).
+   above the frontier, (frontier - base of the next by-height window) and the iterations until the by-height part fires
+   again (<= 42) - a window below the frontier is answered with duplicates only and the next one starts above it;
+   otherwise (lowest entry at or above the frontier - L) + number of entries below the frontier. *)
+Theorem C11_sync_machine_catches_up : forall hp pbd (th hd : N -> N), 1 <= pbd -> forall L0, 1 <= L0 ->
+  (forall L, L0 <= L -> L <= hp + 1 -> L <= hd L + 1) ->
+  forall a, AInv hp L0 a -> exists k, AInv hp L0 (a_iter hp pbd th hd k a) /\ hp < aL (a_iter hp pbd th hd k a).
 Proof. exact a_catches_up. Qed.
 Print Assumptions C11_sync_machine_catches_up.
 
@@ -184,8 +198,9 @@ Print Assumptions C11_sync_machine_catches_up.
      - our node accepts the blocks of [theirs] one after another, lowest first (AddBlock succeeds, including the
        reorganisation): the branch is valid FROM OUR NODE'S POINT OF VIEW;
      - until the last block of [theirs] is in, our tip is lighter than the peer's announcement;
-     - REACH: as long as our own height is below the peer's, the lowest block of [theirs] we do not store is at most
-       PARALLEL_BLOCKS_DOWNLOAD + 1 above our own height (false in livelock 1);
+     - HELD: while it accepts the branch our node holds a block at the height just below the lowest block of [theirs] it
+       does not store yet (its own height or the height of one of its alternative tips is at least that): true of every
+       reachable node, see the next theorem;
    about the synchronisation state: empty download queue and buffer, and the best announcement heard so far is at most
    the peer's (false in livelock 2); the counters n / forkWait / SyncLastRequestHeight are arbitrary.
    Schedule (fairness): rounds keep being scheduled; in every round the peer's STATS have arrived, Synchronize runs one
@@ -203,9 +218,8 @@ Theorem C11_sync_fork_catches_up : forall cfg genesis_addr team_key gh peer n0 s
   acc_chain cfg genesis_addr n0 theirs ->
   (forall j, (j < length theirs)%nat -> top_cd (apply_ext cfg genesis_addr n0 (firstn j theirs)) < top_cd peer) ->
   top_h peer + parallel_blocks cfg + 2 < two64 -> 1 <= parallel_blocks cfg ->
-  (forall j, (j < length theirs)%nat ->
-     let n := apply_ext cfg genesis_addr n0 (firstn j theirs) in
-     top_h n < top_h peer -> N.of_nat (length shared + j) <= top_h n + parallel_blocks cfg + 1) ->
+  (forall j, (j <= length theirs)%nat ->
+     N.of_nat (length shared + j) <= held_height (apply_ext cfg genesis_addr n0 (firstn j theirs)) + 1) ->
   forall s, sy_node s = n0 -> sy_queue s = [] -> sy_buf s = [] ->
   (sy_diff s < top_cd peer \/ (sy_diff s = top_cd peer /\ sy_height s = top_h peer)) ->
   exists bound, forall now, (forall b, In b (tl (shared ++ theirs)) -> prevalidate_block cfg team_key b now = Ok tt) ->
@@ -224,15 +238,21 @@ Theorem C11_sync_fork_catches_up : forall cfg genesis_addr team_key gh peer n0 s
 Proof. exact sync_fork_catches_up. Qed.
 Print Assumptions C11_sync_fork_catches_up.
 
-(* The same with the premise REACH stated on the two chains.  Our node satisfies the chain invariants of every reachable
-   state (C10/C17 structure, C04 fork choice, tip height = height of the tip block); while it accepts the peer's branch its
-   tip is its own old tip or the last block accepted, so REACH follows from
-     REACH'  if the peer's main chain has a block at height (our height + PARALLEL_BLOCKS_DOWNLOAD + 1), that block is
-             heavier than our tip.
-   Nothing to check when the peer's chain is at most PARALLEL_BLOCKS_DOWNLOAD + 1 blocks higher than ours (in particular
-   when it is heavier but not higher).  Livelock 1 is a pair of chains on which REACH' fails (135 <= 145 at height 65). *)
+(* Every reachable node satisfies the chain invariants and holds a block at every height up to [held_height]: no stored
+   block is higher than the node's own height and the heights of its alternative tips ([MInv]). *)
+Theorem C11_reachable_holds_heights : forall cfg genesis_addr team_key g n0 ops,
+  node0 cfg genesis_addr g = Ok n0 -> b_height g = 0 -> b_cd g = b_diff g -> N.of_nat (length ops) < two64 - 1 ->
+  let n := run cfg genesis_addr team_key n0 ops in
+  (CInv (b_hash g) n /\ FInv n /\ HInv n) /\ (forall h b, get_block n h = Some b -> b_height b <= held_height n).
+Proof. exact reachable_MInv. Qed.
+Print Assumptions C11_reachable_holds_heights.
+
+(* For such a node the premise HELD is a theorem: NO premise about the request window is left (before the repair of
+   livelock 1 this theorem needed "the peer's block at height our height + PARALLEL_BLOCKS_DOWNLOAD + 1, if there is
+   one, is heavier than our tip"). *)
 Theorem C11_sync_fork_catches_up_chains : forall cfg genesis_addr team_key gh peer n0 shared theirs,
   chain_structure gh peer -> CInv gh n0 /\ FInv n0 /\ HInv n0 ->
+  (forall h b, get_block n0 h = Some b -> b_height b <= held_height n0) ->
   N.of_nat (length (blocks n0) + length theirs) <= two64 ->
   main_chain peer = shared ++ theirs -> shared <> [] -> theirs <> [] ->
   (forall b, In b (shared ++ theirs) -> b_hash b <> 0) ->
@@ -241,7 +261,6 @@ Theorem C11_sync_fork_catches_up_chains : forall cfg genesis_addr team_key gh pe
   acc_chain cfg genesis_addr n0 theirs ->
   (forall j, (j < length theirs)%nat -> top_cd (apply_ext cfg genesis_addr n0 (firstn j theirs)) < top_cd peer) ->
   top_h peer + parallel_blocks cfg + 2 < two64 -> 1 <= parallel_blocks cfg ->
-  (forall o, nth_error (shared ++ theirs) (N.to_nat (top_h n0 + parallel_blocks cfg + 1)) = Some o -> top_cd n0 < b_cd o) ->
   forall s, sy_node s = n0 -> sy_queue s = [] -> sy_buf s = [] ->
   (sy_diff s < top_cd peer \/ (sy_diff s = top_cd peer /\ sy_height s = top_h peer)) ->
   exists bound, forall now, (forall b, In b (tl (shared ++ theirs)) -> prevalidate_block cfg team_key b now = Ok tt) ->
@@ -303,10 +322,9 @@ Theorem C11_fork_example_deep_fork :
 Proof. exact example_deep_fork. Qed.
 Print Assumptions C11_fork_example_deep_fork.
 
-(* (3) the control of livelock 1, through the chain-level premise REACH': our node holds only the first 13 of its 14 blocks
-   (cumulative difficulty 112); the peer's block of height 13 + 51 = 64 has cumulative difficulty 133 > 112; the node
-   catches up with the peer's 75 blocks.  (On the Go implementation: reached the peer's tip in 27 s, while the 14-block
-   node had not moved after 150 s - header of Proofs/Sync2Stuck.v.) *)
+(* (3) the control of the repaired livelock 1: our node holds only the first 13 of its 14 blocks (cumulative difficulty
+   112); the peer's block of height 13 + 51 = 64 has cumulative difficulty 133 > 112; the node catches up with the peer's
+   75 blocks (it did before the repair as well). *)
 Theorem C11_fork_example_long_fork_control :
   (top_h (k_feed e_ours3), top_cd (k_feed e_ours3)) = (13, 112) /\
   map b_cd (firstn 1 (skipn 63 k_theirs)) = [133] /\
